@@ -11,9 +11,12 @@ def flatten(n, out):
     out.append(n)
 
 
-def template(fb, func, allow=()):
-    """returns (text with <<?i>> placeholders, [non-literal operand nodes], [other statement nodes])"""
+def template(fb, func, allow=(), bind=None, depth=0):
+    """returns (text with <<?i>> placeholders, [non-literal operand nodes], [other statement nodes]).
+    A call to a repository function that is itself a straight-line writer on the same stream (an extracted helper) is
+    expanded in place; its parameters that are bound to string literals at the call site count as literals."""
     res, nonlit, ctrl = [], [], []
+    bind = bind or {}
     body = func.d['body']
     for st in body.get('c', []):
         s = strip(st)
@@ -21,6 +24,14 @@ def template(fb, func, allow=()):
             ops = []
             flatten(s, ops)
             for o in ops[1:]:
+                if o['k'] == 'DeclRefExpr' and o.get('ref', {}).get('lid') in bind and func.d.get('params') is not None:
+                    b = strip(bind[o['ref']['lid']])
+                    # const char* parameters bound to a literal
+                    while b is not None and b['k'] in ('CXXConstructExpr',) and b.get('c'):
+                        b = strip(b['c'][0])
+                    if b is not None and b['k'] == 'StringLiteral':
+                        res.append(b.get('str', ''))
+                        continue
                 if o['k'] == 'StringLiteral':
                     res.append(o.get('str', ''))
                 elif o['k'] == 'DeclRefExpr' and o['ref']['name'] == 'endl':
@@ -30,6 +41,36 @@ def template(fb, func, allow=()):
                 else:
                     res.append('<<?%d>>' % len(nonlit))
                     nonlit.append(o)
+        elif s['k'] in ('CallExpr', 'CXXMemberCallExpr') and depth < 3 and s.get('callee') and not s['callee'].get('ext') and s['callee']['m'] in fb.funcs and _is_writer(fb.funcs[s['callee']['m']]):
+            cf = fb.funcs[s['callee']['m']]
+            args = s['c'][1:]
+            b2 = {}
+            for p, a in zip(cf.d.get('params', []), args):
+                b2[p['lid']] = a
+            t2, nl2, ct2 = template(fb, cf, allow, b2, depth + 1)
+            # renumber the callee's placeholders
+            for i in range(len(nl2) - 1, -1, -1):
+                t2 = t2.replace('<<?%d>>' % i, '<<?%d>>' % (i + len(nonlit)))
+            res.append(t2)
+            nonlit += nl2
+            ctrl += ct2
+        elif s['k'] in ('DeclStmt', 'NullStmt') and not any('ostream' in (d.get('t') or '') for d in s.get('decls', [])):
+            # locals are harmless as long as they are not inserted (an inserted local is a non-literal operand and reported as such)
+            continue
         else:
             ctrl.append(s)
     return ''.join(res), nonlit, ctrl
+
+
+def _is_writer(cf):
+    """a function taking a std::ostream& whose body consists of stream insertions only"""
+    if not any('ostream' in (p.get('t') or '') for p in cf.d.get('params', [])):
+        return False
+    body = cf.d.get('body')
+    if not isinstance(body, dict):
+        return False
+    for st in body.get('c', []):
+        s = strip(st)
+        if not (s['k'] == 'CXXOperatorCallExpr' and s.get('op') == '<<'):
+            return False
+    return True
